@@ -822,7 +822,8 @@ func runOptionSources(c *core.Ctx, r *core.Report, names []string) {
 	if arg == nil {
 		panic(core.AnchorError{What: "the call of NewRun in internal/run"})
 	}
-	isFlagGet := func(v ssa.Value) (*ssa.Call, string) {
+	isFlagGet := func(l srcLeaf) (ssa.Instruction, string) {
+		v := l.V
 		if ex, ok := v.(*ssa.Extract); ok {
 			v = ex.Tuple
 		}
@@ -830,23 +831,28 @@ func runOptionSources(c *core.Ctx, r *core.Report, names []string) {
 		if !ok {
 			return nil, ""
 		}
-		t := an.Callee(call)
+		t, args := an.Callee(call), call.Call.Args
+		var at ssa.Instruction = call
+		if l.Callee != nil {
+			// a getter handed to a helper: judged at the helper's call site
+			t, args, at = l.Callee, l.Args, l.Site
+		}
 		if t == nil || !strings.HasPrefix(t.Name(), "Get") || t.Signature.Recv() == nil || !strings.HasSuffix(t.Signature.Recv().Type().String(), "pflag.FlagSet") {
 			return nil, ""
 		}
-		for _, a := range call.Call.Args {
+		for _, a := range args {
 			if k, isK := a.(*ssa.Const); isK && k.Value != nil && k.Value.Kind() == constant.String {
-				return call, constant.StringVal(k.Value)
+				return at, constant.StringVal(k.Value)
 			}
 		}
-		return call, "?"
+		return at, "?"
 	}
 	for _, f := range names {
 		// where the field of the options handed to NewRun can come from, through whatever helpers assemble them
 		leaves := fieldSourcesOf(c, arg, f, where)
 		var ds []string
 		okCfg, okFlag, stray := false, false, ""
-		var flagReads []*ssa.Call
+		var flagReads []ssa.Instruction
 		set := false
 		for _, l := range leaves {
 			if _, isAlloc := l.V.(*ssa.Alloc); isAlloc {
@@ -862,7 +868,7 @@ func runOptionSources(c *core.Ctx, r *core.Report, names []string) {
 				}
 				continue
 			}
-			if call, name := isFlagGet(l.V); call != nil {
+			if call, name := isFlagGet(l); call != nil {
 				if name == kebab(f) {
 					okFlag = true
 					flagReads = append(flagReads, call)
